@@ -155,6 +155,87 @@ theorem setMap_closed {m : Nat} {R : Heap → Ref → Res Ref} (hR : GoodRec m R
     rw [hRe] at hRc hRsz
     exact ⟨hRc, by simp only at hRsz ⊢; omega⟩
 
+/-! ## the ndarray arm -/
+
+theorem ndWrite_closed {h : Heap} (hc : Closed h) (b o : Nat) (ys : List Int) : Closed (ndWrite h b o ys) := by
+  unfold ndWrite
+  split
+  · exact closed_write hc (by simp [Node.refs])
+  · exact hc
+
+theorem ndItem_closed {h : Heap} (hc : Closed h) (b : Ref) (o : Nat) (inner : List Nat) :
+    Closed (ndItem h b o inner).1 := by
+  obtain ⟨n, h1, _, hn⟩ := ndItem_fst h b o inner
+  rw [h1]
+  apply closed_push hc
+  rcases hn with ⟨rfl, _⟩ | ⟨rfl, _⟩
+  · simp [Node.refs]
+  · simp [Node.refs]
+
+theorem ndPre_closed (inPlace : Bool) {h : Heap} (hc : Closed h) {tree b off : Nat} {shape : List Nat}
+    (hn : h[tree]? = some (.nd b off shape)) :
+    Closed (ndPre inPlace h tree b off shape).1 ∧ h.size ≤ (ndPre inPlace h tree b off shape).1.size ∧
+      (ndPre inPlace h tree b off shape).2.1 < (ndPre inPlace h tree b off shape).1.size := by
+  unfold ndPre
+  cases inPlace
+  · simp only [Bool.false_eq_true, if_false, ndCopy_fst, ndCopy_snd, Array.size_push]
+    refine ⟨closed_push (closed_push hc (by simp [Node.refs])) (by simp [Node.refs]), by omega, by omega⟩
+  · simp only [if_true]
+    exact ⟨hc, Nat.le_refl _, lt_size_of_get hn⟩
+
+theorem setNd_closed {m : Nat} {R : Heap → Ref → Res Ref} (hR : GoodRec m R) (inPlace : Bool) {h : Heap}
+    (hc : Closed h) (hm : m ≤ h.size) {tree b off : Nat} {shape : List Nat}
+    (hn : h[tree]? = some (.nd b off shape)) (k : PKey) :
+    Closed (setNd R inPlace h tree b off shape k).1 ∧ h.size ≤ (setNd R inPlace h tree b off shape k).1.size ∧
+      ∀ c', (setNd R inPlace h tree b off shape k).2 = .ok c' →
+        c' < (setNd R inPlace h tree b off shape k).1.size := by
+  rw [setNd_unfold]
+  obtain ⟨hpc, hpsz, hpres⟩ := ndPre_closed inPlace hc hn
+  have herr : ∀ e : ErrKind, Closed ((ndPre inPlace h tree b off shape).1, (Except.error e : Except ErrKind Ref)).1 ∧
+      h.size ≤ ((ndPre inPlace h tree b off shape).1, (Except.error e : Except ErrKind Ref)).1.size ∧
+      ∀ c', ((ndPre inPlace h tree b off shape).1, (Except.error e : Except ErrKind Ref)).2 = .ok c' →
+        c' < ((ndPre inPlace h tree b off shape).1, (Except.error e : Except ErrKind Ref)).1.size :=
+    fun e => ⟨hpc, hpsz, by intro c' hc'; cases hc'⟩
+  split
+  · exact herr _
+  · split
+    · exact herr _
+    · split
+      · exact herr _
+      · split
+        · exact herr _
+        · rename_i n inner _ i _ _ _ j _
+          have hic := ndItem_closed hpc (ndPre inPlace h tree b off (n :: inner)).2.2.1 ((ndPre inPlace h tree b off (n :: inner)).2.2.2 + j * prod inner) inner
+          obtain ⟨nn, hi1, hi2, _⟩ := ndItem_fst (ndPre inPlace h tree b off (n :: inner)).1
+            (ndPre inPlace h tree b off (n :: inner)).2.2.1
+            ((ndPre inPlace h tree b off (n :: inner)).2.2.2 + j * prod inner) inner
+          have hisz : (ndItem (ndPre inPlace h tree b off (n :: inner)).1
+              (ndPre inPlace h tree b off (n :: inner)).2.2.1
+              ((ndPre inPlace h tree b off (n :: inner)).2.2.2 + j * prod inner) inner).1.size =
+              (ndPre inPlace h tree b off (n :: inner)).1.size + 1 := by rw [hi1]; simp
+          have hlt2 : (ndItem (ndPre inPlace h tree b off (n :: inner)).1
+              (ndPre inPlace h tree b off (n :: inner)).2.2.1
+              ((ndPre inPlace h tree b off (n :: inner)).2.2.2 + j * prod inner) inner).2 <
+              (ndItem (ndPre inPlace h tree b off (n :: inner)).1
+              (ndPre inPlace h tree b off (n :: inner)).2.2.1
+              ((ndPre inPlace h tree b off (n :: inner)).2.2.2 + j * prod inner) inner).1.size := by
+            rw [hi2, hisz]; omega
+          obtain ⟨hRc, hRsz, hRlt⟩ := hR _ _ hic (by omega) hlt2
+          split
+          · rename_i h3 e hRe
+            rw [hRe] at hRc hRsz
+            exact ⟨hRc, by simp only at hRsz ⊢; omega, by intro c' hc'; cases hc'⟩
+          · rename_i h3 c hRe
+            rw [hRe] at hRc hRsz
+            simp only at hRc hRsz
+            split
+            · exact ⟨hRc, by simp only; omega, by intro c' hc'; cases hc'⟩
+            · refine ⟨ndWrite_closed hRc _ _ _, by simp only [ndWrite_size]; omega, ?_⟩
+              intro c' hc'
+              simp only [Except.ok.injEq] at hc'
+              subst hc'
+              simp only [ndWrite_size]; omega
+
 theorem defaultTree_closed (p : Path) : ∀ (h : Heap) (v : Ref), Closed h → v < h.size →
     Closed (defaultTree h p v).1 ∧ h.size ≤ (defaultTree h p v).1.size ∧
       ∀ c', (defaultTree h p v).2 = .ok c' → c' < (defaultTree h p v).1.size := by
@@ -303,5 +384,9 @@ theorem setPath_closed (strict inPlace : Bool) (p : Path) : ∀ (h : Heap) (t v 
           rw [he] at hs
           simp only [Array.size_push] at hs
           exact ⟨hs.1, by simp only; omega, by intro c' hc'; cases hc'⟩
+    · -- ndarray
+      rename_i b off shape hn
+      exact setNd_closed hR inPlace hc (Nat.le_refl _) hn k
+    · exact ⟨hc, Nat.le_refl _, by intro c' hc'; cases hc'⟩
 
 end MlModel.Tree
